@@ -388,6 +388,22 @@ namespace vhb
          pegtl::file_input< pegtl::tracking_mode::eager, Eol > in( path );
          run_on< Tag, Root, Action, Control, A, M >( in, o );
       } );
+      if( n <= 5000 ) {  // every class forwards the tracking mode to its base on its own
+#if defined( _POSIX_MAPPED_FILES )
+         guarded( "mmap_lazy", [ & ]( outcome& o ) {
+            pegtl::mmap_input< pegtl::tracking_mode::lazy, Eol > in( path );
+            run_on< Tag, Root, Action, Control, A, M >( in, o );
+         } );
+#endif
+         guarded( "file_lazy", [ & ]( outcome& o ) {
+            pegtl::file_input< pegtl::tracking_mode::lazy, Eol > in( path );
+            run_on< Tag, Root, Action, Control, A, M >( in, o );
+         } );
+         guarded( "string_lazy", [ & ]( outcome& o ) {
+            pegtl::string_input< pegtl::tracking_mode::lazy, Eol > in( std::string( heap, n ), "src" );
+            run_on< Tag, Root, Action, Control, A, M >( in, o );
+         } );
+      }
       for( const std::size_t mx : { big, small } ) {
          const std::string sfx = ( mx == big ) ? "_big" : "_small";
          guarded( ( "cstream" + sfx ).c_str(), [ & ]( outcome& o ) {
@@ -445,6 +461,22 @@ namespace vhb
             }
             delete[] arg;
          } );
+         if( n <= 5000 ) {
+            guarded( "argv_lazy", [ & ]( outcome& o ) {
+               char* arg = new char[ n + 1 ];
+               if( n != 0 ) {
+                  std::memcpy( arg, heap, n );
+               }
+               arg[ n ] = 0;
+               char prog[] = "prog";
+               char* argv[] = { prog, arg, nullptr };
+               {
+                  pegtl::argv_input< pegtl::tracking_mode::lazy, Eol > in( argv, 1 );
+                  run_on< Tag, Root, Action, Control, A, M >( in, o );
+               }
+               delete[] arg;
+            } );
+         }
          guarded( "cstring_big", [ & ]( outcome& o ) {
             char* arg = new char[ n + 1 ];
             if( n != 0 ) {
